@@ -310,8 +310,9 @@ def _seeds(acc, job):
     bad = []
     n = 6
     X = np.arange(n).reshape(-1, 1)
-    for k in range(job["nseeds"]):
-        seed = rnd.randint(0, 2 ** 31 - 1)
+    boundary = [0, 1]  # 0 is falsy: must still be a fixed seed
+    for k in range(job["nseeds"] + len(boundary)):
+        seed = boundary[k] if k < len(boundary) else rnd.randint(0, 2 ** 31 - 1)
         w = [0.5, 0.25, 0.25]
         outs = [[float((i + t) % 2) for i in range(n)] for t in range(3)]
         eg = _mk_eg("classification", 3, [0, 2, 1], w, outs, n)
